@@ -94,7 +94,8 @@ LargestBucket(nodes) ==
 
 (***************************************************************************)
 (* C04: every stored item lies on the side of each decided plane above it  *)
-(* to which its own vector is routed.  Side(plane, item) \in {"L","R","U"}.*)
+(* to which its own vector is routed.  Side(plane, item) \in {"L","R","U"} *)
+(* ("N" = the margin is not a finite number; treated like "U" here).       *)
 (* Placement(nodes, ref) is the set of <<split node id, item, "L"|"R">>:   *)
 (* below which child of which split each item is stored.                   *)
 (***************************************************************************)
@@ -110,7 +111,7 @@ Placement(nodes, ref, fuel) ==
 
 Misrouted(nodes, root, Side(_, _)) ==
   {p \in Placement(nodes, TreeRef(root), Fuel(nodes)) :
-      LET s == Side(nodes[p[1]].plane, p[2]) IN s # "U" /\ s # p[3]}
+      LET s == Side(nodes[p[1]].plane, p[2]) IN s \in {"L", "R"} /\ s # p[3]}
 
 RoutedToSelf(nodes, roots, Side(_, _)) ==
   \A k \in DOMAIN roots : Misrouted(nodes, roots[k], Side) = {}
